@@ -34,6 +34,18 @@ func registerAll() {
 	reg("L8", "root-id preservation: whatever replaces Array/OrderedMap.root carries the id read from the previous root before any id change; ValueID independent of inlining", ruleL8)
 	reg("L10", "map element count: incrementCount exactly on (Set ok, no existing value), decrementCount exactly on Remove ok, no other writers", ruleL10)
 
+	reg("E1", "error category table: each rejection constructor ends in the contract's category constructor; all constructors categorised; category types keep Unwrap; wrap helper recognises all three categories", ruleE1)
+	reg("E2", "errors of caller-supplied components (Ledger, BaseStorage, SlabStorage, DigesterBuilder, ValueComparator, HashInputProvider) never leave a function raw", ruleE2)
+	reg("K1", "collision-limit rejection: first level only, depends on the limit comparison, only for absent keys (KeyNotFound of Get(key)), before any effect", ruleK1)
+
+	reg("X1", "type-switch exhaustiveness over the closed slab/element families: every member that can reach the switch has a case, or the default reports an error / panics", ruleX1)
+
+	reg("X2", "reference coverage: every field of a slab/element type that can hold a slab reference is read by the ChildStorables call graph (sibling links and own ids exempt by table)", ruleX2)
+	reg("X3", "traversal agreement: the three reference walkers recognise SlabIDStorable and descend through nested storables; broken vs resolved references split by the found flag; every failure predicate of the health check controls an error return", ruleX3)
+	reg("X4", "iterator agreement: Next/NextKey/NextValue of one iterator type write the same cursor fields", ruleX4)
+	reg("X5", "can-copy / copy agreement per type: constant-false iff always-error; non-constant predicates refuse on the same receiver state the copy fails on", ruleX5)
+	reg("X6", "copy independence: reference-typed fields of a copy never receive a value loaded from the source", ruleX6)
+
 	const tCFG = "CFG path rules on go/ssa (must-precede, edge dominance, loop-iteration coverage, error-edge reachability)"
 	propTable["C03"] = &PropSpec{
 		ID:    "C03",
@@ -76,6 +88,48 @@ func registerAll() {
 		Explanation: "every Storable returned by an exported Array/OrderedMap method is the result of uninlineStorableIfNeeded (so a detached inlined child becomes a stored standalone slab) and that helper uninlines both slab kinds; the mutableElementIndex entry of a removed/overwritten child is deleted, guarded only by identity tests; parent-updater callbacks re-set the child only on paths that passed the true edge of a ValueID.equal test and after a fresh lookup; parentUpdater is assigned only by setParentUpdater and cleared only on the not-found edge of its own invocation.",
 		NotDecided: "that re-validation compares the right element after arbitrary histories; that Uninline itself stores the slab (dirty-marking rules R1/R3', not yet decided in this revision).",
 		Technique:  "value-flow on return operands, control-dependence slices, edge-restricted reachability in callback closures",
+	}
+	propTable["C09"] = &PropSpec{
+		ID:    "C09",
+		Rules: []string{"R7", "X2", "X1"},
+		Explanation: "every Storable handed back by an exported Array/OrderedMap method went through uninlineStorableIfNeeded (a detached inlined child becomes a stored standalone slab the caller can dispose of); every field of a slab/element type that can hold a slab reference is read by the ChildStorables call graph (so references are enumerable and removable), with sibling links and own ids exempt by table; every slab/element kind is handled by every family type switch.",
+		NotDecided: "'referenced exactly once' and owner equality (facts about runtime id values); the detach=>remove / alloc=>store typestate rules R2/R3 are not decided in this revision.",
+		Technique:  "value-flow on return operands, field-read coverage over the ChildStorables call graph, type-switch exhaustiveness over closed families",
+	}
+	propTable["C12"] = &PropSpec{
+		ID:    "C12",
+		Rules: []string{"K1", "X1"},
+		Explanation: "the collision-limit rejection is control dependent on level == 0, on a comparison with maxCollisionLimitPerDigest and on errors.As(KeyNotFoundError) of Get with the same key parameter (so updates of existing keys are never refused), and no mutation, store or allocation precedes it on any path; every element kind (single element, inline group, external group) and both element-list kinds are handled by every family type switch or by an erroring default.",
+		NotDecided: "dictionary semantics under arbitrary digest assignments; correctness of spill/collapse transitions (value-dependent).",
+		Technique:  "control-dependence slices and backward reachability on go/ssa; type-switch exhaustiveness",
+	}
+	propTable["C13"] = &PropSpec{
+		ID:    "C13",
+		Rules: []string{"X4", "X1", "R5"},
+		Explanation: "Next/NextKey/NextValue of each iterator type write the same cursor fields (no flavour can skip or repeat relative to its siblings); every slab/element kind is handled by the iterator type switches (no silent skip); mutable iteration hands out children with the parent callback installed, read-only iterators arm the mutation error on every element.",
+		NotDecided: "exactly-once, canonical order and the loaded-subset subsequence property (value-level).",
+		Technique:  "may-effect comparison of sibling methods, type-switch exhaustiveness, must-pass-through path rule",
+	}
+	propTable["C17"] = &PropSpec{
+		ID:    "C17",
+		Rules: []string{"X5", "X6"},
+		Explanation: "for every type with a can-copy/copy pair the predicate is constant false exactly when the operation fails on every path, and non-constant predicates refuse on exactly the receiver state the operation fails on (the rest is delegated to the elements' own pair); every slice/map/pointer field of a copy receives a fresh or cloned value, never one loaded from the source.",
+		NotDecided: "equality of content, validity 'as if built by individual operations' (tail-rebalance arithmetic), byte-array conversions.",
+		Technique:  "return-constant and control-dependence comparison of sibling methods; alias check on stores into the fresh result",
+	}
+	propTable["C18"] = &PropSpec{
+		ID:    "C18",
+		Rules: []string{"E1", "E2", "K1"},
+		Explanation: "each rejection constructor named by the property ends in the contract's category constructor (index/range/absent key/element count/element type -> UserError; collision limit, undefined id, slab not found -> FatalError), every other constructor is categorised, the category types keep Unwrap and the wrap helper recognises all three categories; no error returned by a caller-supplied component (Ledger, BaseStorage, SlabStorage, DigesterBuilder, ValueComparator, HashInputProvider) leaves a function raw; the collision-limit rejection precedes every effect.",
+		NotDecided: "'leaves no trace' for the other rejections (reject-before-effect rule R6 over all callers is not decided in this revision); message text.",
+		Technique:  "constructor delegation resolution, taint from interface/func-value call results to return operands, backward reachability",
+	}
+	propTable["C20"] = &PropSpec{
+		ID:    "C20",
+		Rules: []string{"X1", "X2", "X3", "S9"},
+		Explanation: "reference enumeration is complete over slab/element kinds (type switches) and over reference-bearing fields (ChildStorables coverage); the three walkers recognise SlabIDStorable and descend through nested storables; getAllChildReferences splits broken from resolved references by the found flag; each failure mode of the property (second parent, owner mismatch, missing slab, root count, unreachable slab) controls an error return of CheckStorageHealth; the checker and the reference query cannot reach a writer of the write set or of registers.",
+		NotDecided: "that the predicates are evaluated on the right ids for every storage (value-level).",
+		Technique:  "structural shape rules over go/ssa + call-graph reachability",
 	}
 	propTable["C14"] = &PropSpec{
 		ID:    "C14",
